@@ -53,6 +53,9 @@ def gen_cases(rng, tier):
             grids.append("integrator_roots")
         ncon = rng.randint(3, 8)
         spec["constraints"] = [ocpgen.gen_constraint(rng, spec, cid + 1, grids=grids) for cid in range(ncon)]
+        for c in spec["constraints"]:
+            if rng.random() < 0.2:
+                c["scale"] = ocpgen.rnd(rng, 0.2, 8.0, 3)   # scale= divides body and bounds alike: same instances
         if rng.random() < 0.3:
             spec["objective"] = ocpgen.gen_objective(rng, spec, 1)
         kind = "normal"
